@@ -9,6 +9,8 @@
      C20 ⟵ C11   Proofs/ComposeC20.v                            a client arriving during / after shutdown gets its result
      C09 ⟵ C07   Proofs/ComposeC09C07.v                         ReqSM's put-fault classes = LruPut's outcomes; "the faults
                                                                  have stopped" of C09_repopulates follows from C07
+     C15 ⟵ C07   Proofs/ComposeC15.v                            C15_hits_served_always' premises about the directory from
+                                                                 C07's invariant of the read-write store that left it
      C01 ⟵ C08 ⟵ C10   Proofs/ComposeHitBytes.v                 C10's "get_object wrote the complete stored member" from
                                                                  C08_roundtrip; the whole hit, request machine to files
    Witnesses for the non-vacuity examples: Proofs/ComposeEx.v (toyH: a concrete 64-hex-valued hash), Proofs/ComposeEx2.v.
@@ -24,7 +26,7 @@ From Sccache Require Model.Stats Model.ReqSM Proofs.ReqSM Model.Lru Model.HitMod
      Model.DiskCache Proofs.DiskCache Proofs.Lru.
 From Sccache Require Import Proofs.ComposePpLocal Proofs.ComposeC04 Proofs.ComposeC09 Proofs.ComposeC03
      Proofs.ComposeStore Proofs.ComposeEx.
-From Sccache Require Proofs.ComposeC20 Proofs.ComposeC09C07 Proofs.ComposeHitBytes Proofs.ComposeEx2.
+From Sccache Require Proofs.ComposeC20 Proofs.ComposeC09C07 Proofs.ComposeHitBytes Proofs.ComposeEx2 Proofs.ComposeC15.
 Import ListNotations.
 Local Open Scope N_scope.
 
@@ -701,4 +703,104 @@ Example Compose_hit_bytes_example :
   FsModel.content (fst (Extract.run ComposeEx2.HitEx.sched ComposeEx2.HitEx.f0 ComposeEx2.HitEx.objs []))
     ComposeEx2.HitEx.pb = Some [1; 2].
 Proof. exact Proofs.ComposeEx2.HitEx.instance. Qed.
+
+(* ====================================================================== C15 ⟵ C07 (and C06) *)
+
+(* A READ-ONLY server (any configured size c' >= the read-write size c) opened on the directory left by ANY history of
+   the read-write store — DiskCache::put / put_preprocessor_cache_entry / get of Model/LruPut.v, with any number of
+   failing writes, from the open of any acceptable directory:
+     - C15_hits_served_always' premises hold for that directory: canonical listing (ksortedb) and total size within the
+       configured size — from C07's [good], kept by every step of the put protocol (Proofs/ComposeC15.v good_drun) and
+       the sizes-sum lemma (files_fit);
+     - no store is in flight and the directory is exactly the index (every file is a complete, indexed entry of the
+       indexed size: no temp or partial file exists);
+     - the (path, size) listing stays literally the same list at every point of any read-only history, and every entry
+       the read-write store had indexed is served by both stores (result store: hit; preprocessor store: found);
+     - no history of read-only calls, whole requests and read-only restarts changes an entry or a directory (C15_frozen). *)
+Theorem Compose_C15_ro_open_serves_rw_history :
+  forall (s0 : Lru.st) (c : N) (hist : list LruPut.dop) (c' psz clk0 : N) (cs : list (Lru.key * N))
+    (ds : Model.RoCache.dset) (ops : list Model.RoCache.op) (l : list Model.RoCache.item),
+  Lru.dir_ok s0 ->
+  c <= c' ->
+  let s := LruPut.drun (Lru.reopen s0 c) hist in
+  let d := Model.RoCache.start false c' psz (Lru.files s) cs ds clk0 in
+  forallb (Proofs.RoCache.ro_op_fits (Model.RoCache.total_size (Lru.files s))) ops = true ->
+  forallb Model.RoCache.ro_item l = true ->
+  let d' := Model.RoCache.run d ops in
+  Lru.handles s = [] /\
+  Proofs.RoCache.ksortedb (Model.RoCache.fs d) = true /\
+  Model.RoCache.total_size (Model.RoCache.fs d) <= Model.RoCache.dcap d /\
+  (forall (k : Lru.key) (sz : N),
+   Lru.alookup k (Lru.index s) = Some sz <-> (exists mt : N, Lru.alookup k (Lru.files s) = Some (sz, mt))) /\
+  map Proofs.RoCache.proj (Model.RoCache.fs d') = map Proofs.RoCache.proj (Lru.files s) /\
+  (forall (k : Lru.key) (sz : N),
+   (Lru.alookup (Model.RoCache.main_path k) (Lru.index s) = Some sz ->
+    Lru.is_temp (Model.RoCache.main_path k) = false ->
+    Model.RoCache.min_entry <= sz -> snd (Model.RoCache.step d' (Model.RoCache.Get k)) = Model.RoCache.OHit) /\
+   (Lru.alookup (Model.RoCache.pp_path k) (Lru.index s) = Some sz ->
+    Lru.is_temp (Model.RoCache.pp_path k) = false ->
+    snd (Model.RoCache.step d' (Model.RoCache.PpGet k)) = Model.RoCache.OFound)) /\
+  (forall p : Lru.key, Model.RoCache.entry (Model.RoCache.run_items d l) p = Model.RoCache.entry d p) /\
+  Model.RoCache.dirs (Model.RoCache.run_items d l) = Model.RoCache.dirs d.
+Proof. exact Proofs.ComposeC15.ro_open_serves_rw_history. Qed.
+Print Assumptions Compose_C15_ro_open_serves_rw_history.
+
+(* The same for the Lru component of EVERY reachable state of the concurrent store of Model/DiskCache.v (C06: any calls,
+   any schedule, any crash point — `files (lru w)` is literally `d_files (persist w)`, the entry files a crash at that
+   state leaves), once the lazy init has run, through Compose_store_invariants.
+   PARTIAL.  Full statement: "... and the temp files of the calls in flight at the crash, which Model/DiskTree.v leaves
+   in the tree as ordinary files `<dir>/.sccachetmp<id>`, are never served and never deleted by the read-only server".
+   Missing: Model/DiskCache.v keeps temp files in a name space of their own (`tmps`), so the directory handed to the
+   read-only open here does not contain them; the statement over DiskTree's tree needs a lemma relating RoCache's
+   `fmap` to DiskTree's tree listing (RoCache.open_ro does skip `is_temp` names — ro_init_add — and C15_frozen holds for
+   ANY start directory, temp files included, so only the "served" half is open for such trees). *)
+Theorem Compose_C15_ro_open_serves_concurrent_store_partial :
+  forall (c : N) (dk : DiskCache.disk) (ths : list DiskCache.thread) (sched : list nat) 
+    (c' psz clk0 : N) (cs : list (Lru.key * N)) (ds : Model.RoCache.dset) (ops : list Model.RoCache.op),
+  DiskCache.disk_ok dk ->
+  forallb DiskCache.is_call ths = true ->
+  let w := DiskCache.ws (DiskCache.exec (DiskCache.start c dk ths) sched) in
+  let s := DiskCache.lru w in
+  DiskCache.inited w = true ->
+  Lru.cap s <= c' ->
+  let d := Model.RoCache.start false c' psz (Lru.files s) cs ds clk0 in
+  forallb (Proofs.RoCache.ro_op_fits (Model.RoCache.total_size (Lru.files s))) ops = true ->
+  let d' := Model.RoCache.run d ops in
+  Proofs.RoCache.ksortedb (Model.RoCache.fs d) = true /\
+  Model.RoCache.total_size (Model.RoCache.fs d) <= Model.RoCache.dcap d /\
+  map Proofs.RoCache.proj (Model.RoCache.fs d') = map Proofs.RoCache.proj (Lru.files s) /\
+  (forall (k : Lru.key) (sz : N),
+   (Lru.alookup (Model.RoCache.main_path k) (Lru.index s) = Some sz ->
+    Lru.is_temp (Model.RoCache.main_path k) = false ->
+    Model.RoCache.min_entry <= sz -> snd (Model.RoCache.step d' (Model.RoCache.Get k)) = Model.RoCache.OHit) /\
+   (Lru.alookup (Model.RoCache.pp_path k) (Lru.index s) = Some sz ->
+    Lru.is_temp (Model.RoCache.pp_path k) = false ->
+    snd (Model.RoCache.step d' (Model.RoCache.PpGet k)) = Model.RoCache.OFound)).
+Proof. exact Proofs.ComposeC15.ro_open_serves_concurrent_store. Qed.
+Print Assumptions Compose_C15_ro_open_serves_concurrent_store_partial.
+
+(* C15 ⟵ C07: a read-write history with a failing write and its retry, a refused oversized entry, a second entry, a
+   preprocessor entry (failed, then stored) and a lookup; then a read-only server of size 120 with a history containing
+   refused stores and a read-only restart: the hypotheses hold, all three entries are indexed and served, an unknown
+   key is a miss *)
+Example Compose_C15_example :
+  Lru.dir_ok (Lru.empty 100) /\
+  100 <= 120 /\
+  forallb (Proofs.RoCache.ro_op_fits (Model.RoCache.total_size (Lru.files ComposeEx2.C15Ex.s)))
+    ComposeEx2.C15Ex.ro_ops = true /\
+  forallb Model.RoCache.ro_item (map Model.RoCache.IOp ComposeEx2.C15Ex.ro_ops) = true /\
+  Lru.alookup (Model.RoCache.main_path ComposeEx2.C15Ex.k1) (Lru.index ComposeEx2.C15Ex.s) = Some 40 /\
+  Lru.alookup (Model.RoCache.main_path ComposeEx2.C15Ex.k2) (Lru.index ComposeEx2.C15Ex.s) = Some 30 /\
+  Lru.alookup (Model.RoCache.pp_path ComposeEx2.C15Ex.k1) (Lru.index ComposeEx2.C15Ex.s) = Some 10 /\
+  Lru.is_temp (Model.RoCache.main_path ComposeEx2.C15Ex.k1) = false /\
+  Model.RoCache.min_entry <= 40 /\
+  snd (Model.RoCache.step ComposeEx2.C15Ex.d' (Model.RoCache.Get ComposeEx2.C15Ex.k1)) =
+  Model.RoCache.OHit /\
+  snd (Model.RoCache.step ComposeEx2.C15Ex.d' (Model.RoCache.Get ComposeEx2.C15Ex.k2)) =
+  Model.RoCache.OHit /\
+  snd (Model.RoCache.step ComposeEx2.C15Ex.d' (Model.RoCache.PpGet ComposeEx2.C15Ex.k1)) =
+  Model.RoCache.OFound /\
+  snd (Model.RoCache.step ComposeEx2.C15Ex.d' (Model.RoCache.Get [120; 121])) =
+  Model.RoCache.OMiss.
+Proof. exact Proofs.ComposeEx2.C15Ex.instance. Qed.
 
